@@ -53,6 +53,14 @@ CHECKS = {
         "note": "Trusted: TLC, the table projection (harness/real.table_json). Bounded: F(3,3), F(4,2), F(4,3) over 3 nonterminals sampled with fixed seeds, "
                 "seeded random grammars up to 8 productions; main and LAYOUT start productions; no claim beyond the bound.",
     },
+    "C07": {
+        "engine": "tlc-trace", "design_ref": "DESIGN.md 3.2, 7 C07",
+        "technique": "Lexer.tla: exhaustive TLC model check Impl = Doc (LexerMC, 1.5M configurations) + conformance of real candidate order, finish flags and scan outcome of realised terminal configurations (LexCheck.tla), TLC",
+        "level": "Design level: for every configuration of 3 terminals the implementation-shaped scanner equals the documented choice (exhaustive, with a negative control). "
+                 "Code level: every realised configuration's real table order, finish flags and outcome (token / DisambiguationError tokens / SyntaxError / GLR forks) "
+                 "must equal the TLA+ reference for both parsers and both lexical_disambiguation values.",
+        "note": "Trusted: TLC, projection of terminal attributes and recognizer match lengths, Python string order for names. One scanning position per configuration (state 0, input 'aaa aaa').",
+    },
     "C08": {
         "engine": "tlc-trace", "design_ref": "DESIGN.md 7 C08, Appendix A (Check/LeafPath)",
         "technique": "LRCheck.tla PosCheck/Lossless/LeafTokens on recorded LR trees and GLR trees; GLRCheck.tla position clauses (PosNodeAlts/PosChain/PosLeaves) on every alternative of recorded forests, TLC",
